@@ -199,9 +199,21 @@ type verifOp struct {
 // verifStore implements Persistence. Operations fail without effect on a
 // nondeterministic choice while faults remain.
 type verifStore struct {
-	slots  [verifSlots]verifSlot
-	ops    []verifOp
-	faults int
+	slots   [verifSlots]verifSlot
+	ops     []verifOp
+	faults  int
+	crashAt int // the process stops right before the crashAt-th Save/Delete (0 = never)
+	mutOps  int
+}
+
+// verifStoreCrash is the process stop: nothing after it happens.
+type verifStoreCrash struct{}
+
+func (s *verifStore) crashPoint() {
+	s.mutOps++
+	if s.crashAt != 0 && s.mutOps == s.crashAt {
+		panic(verifStoreCrash{})
+	}
 }
 
 func (s *verifStore) fail(tag string) bool {
@@ -241,6 +253,7 @@ func (s *verifStore) Load(key uint) ([]byte, error) {
 }
 
 func (s *verifStore) Save(key uint, value net.Buffers) error {
+	s.crashPoint()
 	if s.fail("savefail") {
 		s.ops = append(s.ops, verifOp{'S', key, false})
 		return verifErrStore
@@ -270,6 +283,7 @@ func (s *verifStore) Save(key uint, value net.Buffers) error {
 }
 
 func (s *verifStore) Delete(key uint) error {
+	s.crashPoint()
 	if s.fail("delfail") {
 		s.ops = append(s.ops, verifOp{'D', key, false})
 		return verifErrStore
